@@ -251,6 +251,30 @@ def extra_checks(tier, scratch):
             if early: ctx.violations.append(dict(kind='assert', what='option lines are read from every line of the data file (the scan never stops early)', detail='%d early exit(s) in the option scan' % len(early), inputs=[], native=None))
             if opts != {'dim', 'compositions', 'grain_compositions', 'n_grains', 'convert_spherical'}:
                 ctx.violations.append(dict(kind='assert', what='the option scan sets dim, compositions, grain compositions, number of grains and convert spherical', detail=str(sorted(opts)), inputs=[], native=None))
+        # malformed rows are reported: every token of a data row that is turned into a number goes through the strict converters of
+        # Utilities (whole token must be a number, else an exception); a lenient library conversion (stod, atof, strtod, stream >>) would
+        # silently misread "100km" as 100.  Structural check on the AST (syntactic, no solver verdict).
+        STRICT = {'string_to_double', 'string_to_int', 'string_to_unsigned_int'}
+        conv = []
+        def is_token(t):
+            return isinstance(t, tuple) and len(t) == 3 and t[0] == 'idx' and isinstance(t[1], tuple) and t[1][0] == 'idx' and t[1][1] == ('var', 'data')
+        def scan(t):
+            if isinstance(t, tuple):
+                if t and t[0] == 'call' and isinstance(t[2], list) and any(is_token(a) for a in t[2]): conv.append(t[1])
+                if t and t[0] == 'shl' and False: pass
+                for x in t: scan(x)
+            elif isinstance(t, list):
+                for x in t: scan(x)
+        scan(tree)
+        ctx.asserts += 2
+        if not conv: ctx.violations.append(dict(kind='assert', what='data row tokens are converted to numbers by the strict converters', detail='no conversion of a data token found in main', inputs=[], native=None))
+        LENIENT = {'stod', 'stof', 'stold', 'atof', 'strtod', 'strtof', 'strtold', 'stoi', 'stol', 'stoul', 'stoll', 'stoull', 'atoi', 'atol', 'atoll', 'strtol', 'strtoul', 'strtoll', 'strtoull', 'sscanf', 'operator>>', 'from_chars'}
+        ctx.asserts += 1
+        n_strict = sum(1 for c in conv if c in STRICT)
+        if n_strict < 7: ctx.violations.append(dict(kind='assert', what='data row tokens are converted to numbers by the strict converters', detail='only %d strict conversions of data tokens (2D: x, z, depth; 3D: x, y, z, depth)' % n_strict, inputs=[], native=None))
+        bad = sorted(set(str(c) for c in conv if c in LENIENT))
+        if bad: ctx.violations.append(dict(kind='assert', what='data row tokens are converted to numbers by the strict converters', detail='converted by: ' + ', '.join(bad), inputs=[], native=None))
+        r['samples'].append(dict(obligation='C17.cols', token_conversions=sorted(set(str(c) for c in conv))))
         for dim in (2, 3):
             nh, nr = check_dim(ctx, tree, dim, plist)
             r['samples'].append(dict(obligation='C17.cols', dim=dim, header_generators=nh, row_generators=nr))
